@@ -143,6 +143,16 @@ func (p *Prog) encodeFunc(fn *ssa.Function, spec *FuncSpec) *Enc {
 		e.assume(t)
 		pre = append(pre, t)
 	}
+	for _, c := range spec.Assumes {
+		t, err := env.boolExpr(c.Text)
+		if err != nil {
+			e.errf("%s:%d: %v", c.File, c.Line, err)
+			continue
+		}
+		e.assume(t)
+		e.assumes++
+		e.assumedPre["entry assumption #"+c.Label] = c.Text
+	}
 	// vacuity guard: the preconditions are satisfiable
 	o := fr.oblige("cover", "requires-satisfiable", "true", "true", fn.Pos(), nil)
 	o.Cover = true
@@ -313,6 +323,9 @@ func runProp(p *Prog, prop string, secs int, smtDir string) ([]*funcResult, []st
 		if sp.Trusted != "" {
 			continue
 		}
+		if sp.Inline && len(sp.Requires)+len(sp.Ensures)+len(sp.Exits)+len(sp.Props) == 0 {
+			continue // only marked for inlining at its call sites
+		}
 		if *funcFlag != "" && !strings.Contains(name, *funcFlag) {
 			continue
 		}
@@ -365,6 +378,19 @@ func cmdDump() int {
 	for _, name := range sortedKeys(p.funcs) {
 		if *funcFlag != "" && strings.Contains(name, *funcFlag) {
 			fn := p.funcs[name]
+			if !*verbose {
+				es := p.effects(fn, map[*ssa.Function]bool{})
+				fmt.Printf("EFFECTS %s: all=%v %v\n", name, es.all, keysOf(es.regs))
+				for _, b := range fn.Blocks {
+					for _, ins := range b.Instrs {
+						if c, ok := ins.(ssa.CallInstruction); ok {
+							ce := p.callEffects(c.Common(), map[*ssa.Function]bool{})
+							fmt.Printf("   call %s: all=%v %v\n", c.Common().String(), ce.all, keysOf(ce.regs))
+						}
+					}
+				}
+				continue
+			}
 			fn.WriteTo(os.Stdout)
 			if sp, ok := p.specs.Funcs[name]; ok && sp.Trusted == "" {
 				e := p.encodeFunc(fn, sp)
